@@ -602,6 +602,166 @@ theorem C02_refines (ops : List Op) (st : State) (hw : WFS st) (hv : ValidRun st
     rw [this.1, (C02_refines_step st op hw hv1).2]
     exact ⟨rfl, this.2⟩
 
+/-! ## Machine widths, array dtypes, refusals (audit pass 6)
+
+Every hypothesis above that bounds a size or restricts an input has a counterpart here that says what the code does
+*outside* it: it refuses with a definite exception (`…_rejects`), coincides with the core (`…_agrees`), or violates
+the property (`…_defect`, listed as known findings with the same witnesses). -/
+
+/-- The index guard for every atom count a `uint32` can hold (`n < 2^32`), for every `int32` index: exactly the
+three-way split of `_to_positive_index`. -/
+theorem C02_index_guard_32 (n : Nat) (i : Int) (hn : n < 4294967296) (h1 : -2147483648 ≤ i) (h2 : i ≤ 2147483647) :
+    posIndex n i =
+      if 0 ≤ i then (if i < n then .ok i.toNat else .err .indexError)
+      else if i = -(n : Int) - 1 then .crash
+      else .ok ((i + n) % 4294967296).toNat := by
+  have ht : toInt32 i = .ok (BitVec.ofInt 32 i) := by simp [toInt32, h1, h2]
+  simp only [posIndex, ht]
+  exact posIndex32_spec32 n i hn h1 h2
+
+/-- An atom count that does not fit `uint32` makes every scalar-index method raise OverflowError. -/
+theorem C02_index_atom_count_rejects (n : Nat) (i : Int) (hn : n ≥ 4294967296) (h1 : -2147483648 ≤ i) (h2 : i ≤ 2147483647) :
+    posIndex n i = .err .overflowError := by
+  have ht : toInt32 i = .ok (BitVec.ofInt 32 i) := by simp [toInt32, h1, h2]
+  simp [posIndex, ht, posIndex32, hn]
+
+/-- **Defect.** On a list with more than `2^31` atoms the valid atom indices `≥ 2^31` cannot be addressed: the
+`int32` argument conversion refuses them (while `-2^31`, out of range for a small list, is atom `n - 2^31`). -/
+theorem C02_index_huge_list_defect :
+    posIndex 2147483653 2147483648 = .err .overflowError ∧ posIndex 2147483653 (-2147483648) = .ok 5 := by
+  decide
+
+/-- Constructor: inside the machine bounds (`n < 2^32`, the array dtype can hold `n`) and with non-negative bond
+types the full constructor is the core `newBL`. -/
+theorem C02_new_full_agrees (n : Nat) (typed : Bool) (input : List (Int × Int × Int)) (dmax : Option Nat)
+    (hn : n < 4294967296) (hd : dtypeRefuses n dmax = false) (ht : ∀ r ∈ input, 0 ≤ r.2.2) :
+    newBLFull n typed input dmax = newBL n typed (input.map fun r => (r.1, r.2.1, r.2.2.toNat)) := by
+  unfold newBLFull
+  have h1 : ¬ n ≥ 4294967296 := by omega
+  have h2 : input.all (fun r => decide (0 ≤ r.2.2)) = true := by simpa using ht
+  simp only [h1, if_false, hd, h2, if_true, Bool.false_eq_true]
+  split
+  · rename_i he
+    have : input = [] := by simpa using he
+    subst this; rfl
+  · rfl
+
+/-- Constructor refusals, exactly: atom count beyond `uint32` → OverflowError; a non-empty array whose dtype cannot
+hold the atom count → OverflowError (NumPy); some index outside `[-n, n)` → IndexError; otherwise some type `≥ 10` →
+ValueError. -/
+theorem C02_new_rejects (n : Nat) (typed : Bool) :
+    (∀ input dmax, n ≥ 4294967296 → newBLFull n typed input dmax = .err .overflowError) ∧
+    (∀ input dmax, n < 4294967296 → input ≠ [] → dtypeRefuses n dmax = true →
+        newBLFull n typed input dmax = .err .overflowError) ∧
+    (∀ input, input ≠ [] → normRows n input = none → newBL n typed input = .err .indexError) ∧
+    (∀ input rows, input ≠ [] → normRows n input = some rows → typed = true → (∃ c ∈ rows, c.2.2 ≥ 10) →
+        newBL n typed input = .err .valueError) := by
+  refine ⟨fun input dmax h => by simp [newBLFull, h], fun input dmax h hne hd => ?_, fun input hne hr => ?_,
+          fun input rows hne hr ht hex => ?_⟩
+  · have h1 : ¬ n ≥ 4294967296 := by omega
+    have h2 : input.isEmpty = false := by cases input <;> simp_all
+    simp [newBLFull, h1, h2, hd]
+  · have h2 : input.isEmpty = false := by cases input <;> simp_all
+    simp [newBL, h2, hr]
+  · have h2 : input.isEmpty = false := by cases input <;> simp_all
+    have h3 : rows.any (fun c => decide (c.2.2 ≥ 10)) = true := by
+      obtain ⟨c, hc, h⟩ := hex
+      simp only [List.any_eq_true, decide_eq_true_eq]; exact ⟨c, hc, h⟩
+    simp [newBL, h2, hr, ctorCore, ht, h3]
+
+/-- **Defect.** A negative bond type passes the `>= len(BondType)` test and is stored as `t mod 2^32`: the list
+holds a type that is no `BondType` (`as_graph()` then raises, `bond_type_matrix()` shows `-1` = "no bond"). -/
+theorem C02_new_negative_type_defect :
+    newBLFull 3 true [(0, 1, -1), (1, 2, -7)] none = .ok ⟨3, [(0, 1, 4294967295), (1, 2, 4294967289)], 2⟩ := by
+  decide
+
+/-- `add_bond` refusals for `int32` indices: a type `≥ 10` → ValueError before the indices are looked at; with
+indices in `[-n, n)` a negative type → OverflowError (the `uint32` store), the list unchanged in both cases. -/
+theorem C02_add_rejects (s : BL) (i j t : Int) (hi : -2147483648 ≤ i ∧ i ≤ 2147483647)
+    (hj : -2147483648 ≤ j ∧ j ≤ 2147483647) :
+    (t ≥ 10 → addBond s i j t = .err .valueError) ∧
+    (t < 0 → s.n < 2147483648 → (-(s.n : Int) ≤ i ∧ i < s.n) → (-(s.n : Int) ≤ j ∧ j < s.n) →
+        addBond s i j t = .err .overflowError) := by
+  constructor
+  · intro ht
+    simp [addBond, withIndices, toInt32, hi.1, hi.2, hj.1, hj.2, ht]
+  · intro ht hn hi' hj'
+    have h10 : ¬ t ≥ 10 := by omega
+    have htc : (if t ≥ 10 then some Err.valueError else none) = none := by simp [h10]
+    unfold addBond
+    rw [htc, withIndices_valid _ hn hi' hj']
+    simp [addCore, ht]
+
+/-- `concatenate`: the running atom count is a C `int`: a total above `2^31 - 1` is refused with OverflowError
+(although a `uint32` could hold it); below, the full function is the core. -/
+theorem C02_concat_rejects (ls : List BL) (hne : ls ≠ []) :
+    ((ls.map (·.n)).sum > 2147483647 → concatenateFull ls = .err .overflowError) ∧
+    ((ls.map (·.n)).sum ≤ 2147483647 → concatenateFull ls = concatenate ls) := by
+  have h : ls.isEmpty = false := by cases ls <;> simp_all
+  constructor
+  · intro hs; simp [concatenateFull, h, hs]
+  · intro hs
+    have : ¬ (ls.map (·.n)).sum > 2147483647 := by omega
+    simp [concatenateFull, h, this]
+
+/-- `offset_indices`: as long as the new atom count fits `uint32` nothing wraps and the full function is the core;
+a negative offset → ValueError, an offset outside C `int` → OverflowError. -/
+theorem C02_offset_full_agrees (s : BL) (k : Int) (hc : Canon s) :
+    (0 ≤ k → s.n + k.toNat ≤ 4294967296 → offsetFull s k = offsetIndices s k) ∧
+    (k < 0 → -2147483648 ≤ k → offsetFull s k = .err .valueError) ∧
+    (k > 2147483647 → offsetFull s k = .err .overflowError) := by
+  refine ⟨fun h0 hfit => ?_, fun hneg hlo => ?_, fun hbig => ?_⟩
+  · by_cases hk : k > 2147483647
+    · have : k < -2147483648 ∨ k > 2147483647 := Or.inr hk
+      simp [offsetFull, offsetIndices, this]
+    · have h1 : ¬ (k < -2147483648 ∨ k > 2147483647) := by omega
+      have h2 : ¬ k < 0 := by omega
+      simp only [offsetFull, offsetIndices, h1, h2, if_false]
+      have : wrap32 (shift k.toNat s.bonds) = shift k.toNat s.bonds := by
+        simp only [wrap32, shift, List.map_map]
+        apply List.map_congr_left
+        intro c hcm
+        have hb := hc.bound c hcm
+        have hs := hc.sorted c hcm
+        simp only [Function.comp]
+        rw [Nat.mod_eq_of_lt (by omega), Nat.mod_eq_of_lt (by omega)]
+      rw [this]
+  · have h1 : ¬ (k < -2147483648 ∨ k > 2147483647) := by omega
+    simp [offsetFull, offsetIndices, h1, hneg]
+  · have : k < -2147483648 ∨ k > 2147483647 := Or.inr hbig
+    simp [offsetFull, offsetIndices, this]
+
+/-- **Defect.** Two legal offsets push the atom count beyond `2^32`: the `uint32` bond array wraps silently
+(`(2^32-1, 0)`: unsorted, unrelated atoms) while the Python atom count does not. -/
+theorem C02_offset_wrap_defect :
+    (match offsetFull ⟨3, [(0, 1, 1), (1, 2, 2)], 2⟩ 2147483647 with
+     | .ok r => offsetFull r 2147483647
+     | e => e) = .ok ⟨4294967297, [(4294967294, 4294967295, 1), (4294967295, 0, 2)], 2⟩ := by
+  decide
+
+/-- `__getitem__` with an integer index array: a dtype that cannot hold the atom count is refused with OverflowError
+whatever the array contains (**defect**: NumPy itself selects with such arrays); otherwise dtype plays no role. -/
+theorem C02_getitem_dtype (s : BL) (is : List Int) (layout : Layout) (dmax : Option Nat) :
+    (dtypeRefuses s.n dmax = true → getitemFull s (.arr is) layout dmax = .err .overflowError) ∧
+    (dtypeRefuses s.n dmax = false → getitemFull s (.arr is) layout dmax = getitemL s (.arr is) layout) := by
+  constructor <;> intro h <;> simp [getitemFull, h]
+
+theorem C02_getitem_dtype_defect :
+    getitemFull ⟨300, [(0, 5, 1)], 1⟩ (.arr [5, 0]) .native (some 255) = .err .overflowError ∧
+    getitemFull ⟨300, [(0, 5, 1)], 1⟩ (.arr [5, 0]) .native none = .ok ⟨2, [(0, 1, 1)], 1⟩ := by
+  decide
+
+/-- `__getitem__` refusals of well-defined index objects: an integer array with an entry outside `[-n, n)` →
+IndexError; a Python bool list of the wrong (non-zero) length → IndexError; a slice with step 0 → ValueError
+(`C02_slice_sound`); a duplicate → NotImplementedError (`C02_refines_getitem`). -/
+theorem C02_getitem_rejects (s : BL) :
+    (∀ is, normArr s.n is = none → getitem s (.arr is) = .err .indexError) ∧
+    (∀ m, m ≠ [] → m.length ≠ s.n → getitem s (.blist m) = .err .indexError) ∧
+    (∀ a b, getitem s (.slice a b (some 0)) = .err .valueError) := by
+  refine ⟨fun is h => by simp [getitem, h], fun m hne hl => ?_, fun a b => by simp [getitem, sliceIndices]⟩
+  have : m.isEmpty = false := by cases m <;> simp_all
+  simp [getitem, this, hl]
+
 /-! ## Obligations on the tables regenerated from `bonds.pyx` on every run -/
 
 /-- `BondType` is `0..len-1` without gaps (so `>= len(BondType)` is exactly "not a member"), the model's bound `10`
